@@ -1440,6 +1440,7 @@ pub fn run(e: &'static Engine) {
          mixes V1-size and V25-V40 builds (plus SVG/text/PNG rendering), every result compared with the single-threaded reference \
          computed beforehand. Non-trivial: a history with >= 1 overwritten option and >= 2 builds, or a round with >= 2 threads.",
     );
+    e.extend_rule("setter histories with overwrite pairs and modes the input does not fit; Repeat ops (2..40, 254..257, 300, 1022..1025 builds in a row); FailingRender ops; the cold reference process runs under one of 12 generated environments; part cold_concurrent_rounds (the round as the first use of the crate in a fresh process).");
     e.assume("interleavings are sampled by stress, not controlled: the crate has no primitive through which a test could own the schedule");
     crate::engine::run_regress(e, &|c, o| replay(e, c, o));
     let total: u32 = e.tier.pick(640, 12800);
